@@ -23,6 +23,15 @@ RULE = ("seeded random documents (maps/sequences/sets to depth 3, repeated equal
         "of a merge reference (`/svc0/&m1`, `svc0.&m1`, `/*/&m0`, `items.*.&m0`, collectors of them), of own keys, of elements: the "
         "physical document (own keys per mapping in order, merge references in order, sequences, anchors, sharing) afterwards "
         "is the original minus the matched own entries / elements / merge references.  "
+        "Merge-key documents also carry, in 45 %, a `defs` Hash (before or after the consumers) holding the only occurrence of "
+        "1-2 anchored Hashes named like ordinary consumer keys (n, z, t, k), consumers owning such keys, and ONE delete matching "
+        "both (`/*/n`, `(/svc0/n)+(/defs/n)`, `(/defs/n)+(/svc0/n)`, `(/svc0/n)+(/defs)`): every matched own key must be gone "
+        "(the known class C04-F4 is only the case in which the anchored Hash is still part of the document when the key is "
+        "processed).  (collectors over containers) documents whose scalars are all DISTINCT x `(p1)+(p2)[+(p3)]` with operands "
+        "that are exact paths to scalars, Hashes and real Arrays (under a Hash key or inside another Array), `X.*` and slices, "
+        "both notations and APIs: each node get_nodes() returns on a twin is identified by value (scalars) or identity "
+        "(containers) - not by the parent / parentref it carries - and the document afterwards must be the original minus "
+        "exactly those nodes (an Array as FIRST operand is the known class C04-F6).  "
         "distinct_nontrivial = distinct (document, path) pairs that matched >= 1 non-root node.")
 
 CORPUS = [
@@ -74,6 +83,9 @@ def run(chk: core.Check):
         mcases = gen_merge_cases(rng, 1500 if chk.tier == "quick" else 25000)
         chk.extra_cov["merge_key_document_cases"] = len(mcases)
         cases += mcases
+        ccases = gen_collector_cases(rng, 1200 if chk.tier == "quick" else 15000)
+        chk.extra_cov["collector_addition_container_cases"] = len(ccases)
+        cases += ccases
         rng.shuffle(cases)
         chunks = core.chunked(cases, 64)
     results = core.pmap(_job, chunks)
@@ -206,6 +218,144 @@ def slice_case(case, bump, viol, keys):
         keys.append(_key(case))
 
 
+# --------------------------------------------------------------------------- collector additions over whole containers (real code)
+#
+# `(p1)+(p2)[+(p3)]` whose operands are exact paths to scalars, Hashes and real Arrays (under a Hash key, inside another
+# Array), `X.*` and slices.  A Collector opens an Array operand into its elements; the NodeCoords it hands out for them
+# are what the delete relies on.  Judged independently of those parents / parentrefs: every leaf of the documents is
+# DISTINCT, so each node get_nodes() returns on a twin is identified by its VALUE (scalars) or its identity (containers);
+# the document afterwards must be the original minus exactly those nodes.
+
+def gen_distinct_doc(rng):
+    """A Hash of 3-5 keys holding Hashes, Arrays (of scalars, Arrays, Hashes) and scalars; every scalar is distinct."""
+    n = [100]
+
+    def leaf():
+        n[0] += 1
+        return {"k": "int", "v": str(n[0])} if rng.random() < 0.5 else {"k": "str", "v": "s%d" % n[0]}
+
+    def node(depth):
+        r = rng.random()
+        if depth <= 0 or r < 0.35:
+            return leaf()
+        if r < 0.72:
+            return {"k": "seq", "i": [node(depth - 1) for _ in range(rng.choice([1, 2, 2, 3, 3, 4]))]}
+        return {"k": "map", "e": [[k, node(depth - 1)] for k in rng.sample(ed.KEYS, rng.choice([1, 2, 2, 3]))]}
+    ks = rng.sample(ed.KEYS, rng.choice([3, 4, 5]))
+    doc = {"k": "map", "e": [[k, node(2)] for k in ks]}
+    if not any(v["k"] == "seq" for _, v in doc["e"]):
+        doc["e"][0][1] = {"k": "seq", "i": [leaf(), node(1), leaf()]}
+    return doc
+
+
+def _addr_text(addr, slash):
+    if not slash:
+        return ed.path_of_addr(addr)
+    return "".join("/" + str(ref) for _, ref in addr)
+
+
+def gen_collector_cases(rng, ndocs):
+    cases = []
+    for _ in range(ndocs):
+        doc = gen_distinct_doc(rng)
+        nodes = ed.all_addrs(doc)
+        seqs = [a for a, v in nodes if v["k"] == "seq"]
+        for _ in range(4):
+            slash = rng.random() < 0.5
+            ops = []
+            for _ in range(rng.choice([2, 2, 2, 3])):
+                r = rng.random()
+                if r < 0.45 and seqs:
+                    ops.append(_addr_text(rng.choice(seqs), slash))                 # a real Array
+                elif r < 0.85:
+                    ops.append(_addr_text(rng.choice(nodes)[0], slash))             # any node
+                elif r < 0.93 and seqs:
+                    ops.append(_addr_text(rng.choice(seqs), slash) + rng.choice(["[0:2]", "[1:3]", "[0:1]"]))
+                else:
+                    a = rng.choice([a for a, v in nodes if v["k"] != "scalar" and v["k"] in ("map", "seq")] or seqs)
+                    ops.append(_addr_text(a, slash) + ("/*" if slash else ".*"))
+            cases.append({"collector": True, "doc": doc, "ops": ops, "path": "+".join("(%s)" % o for o in ops),
+                          "api": rng.choice(["delete_nodes", "delete_nodes", "gathered"])})
+    return cases
+
+
+def _remove(j, gone, pre=()):
+    if j["k"] == "map":
+        return dict(j, e=[[k, _remove(v, gone, pre + (("k", k),))] for k, v in j["e"] if pre + (("k", k),) not in gone])
+    if j["k"] == "seq":
+        return dict(j, i=[_remove(v, gone, pre + (("i", i),)) for i, v in enumerate(j["i"]) if pre + (("i", i),) not in gone])
+    return j
+
+
+def collector_case(case, bump, viol, keys):
+    from yamlpath import Processor
+    from yamlpath.wrappers import NodeCoords
+    j, path = case["doc"], case["path"]
+    twin = ed.build(j)
+    table = codec.build_addr_table(twin)            # id(container) -> address
+    byval = {}
+    for a, v in ed.all_addrs(j):
+        if v["k"] not in ("map", "seq", "set"):
+            byval[json.dumps(v, sort_keys=True)] = a
+    proc = Processor(core.quiet_logger(), twin)
+    res = ed.guarded(lambda: list(proc.get_nodes(path, mustexist=True)))
+    if res[0] != "ok":
+        bump("collector:skipped:query-" + res[0].split(":")[0])
+        return
+    if ed.snapshot(twin) != j:
+        bump("collector:skipped:query-mutates-document")
+        return
+    gone = set()
+
+    def leaves(ncs):
+        for nc in ncs:
+            node = nc.node
+            if isinstance(node, NodeCoords):
+                leaves([node])
+            elif isinstance(node, list) and len(node) > 0 and isinstance(node[0], NodeCoords):
+                leaves(node)
+            elif isinstance(node, (dict, list)):
+                if id(node) not in table:
+                    raise codec.OutOfModel("virtual container")
+                gone.add(tuple(tuple(x) for x in table[id(node)]))
+            else:
+                gone.add(tuple(byval[json.dumps(codec.scalar_to_json(node), sort_keys=True)]))
+    try:
+        leaves(res[1])
+    except (KeyError, codec.OutOfModel):
+        bump("collector:skipped:result-is-not-a-node-of-the-document")
+        return
+    if not gone or () in gone:
+        bump("collector:skipped:no-match-or-root")
+        return
+    # which operands resolve to a real Array (a Collector opens it into its elements)
+    seq_ops = []
+    for i, op in enumerate(case["ops"]):
+        r1 = ed.guarded(lambda: list(Processor(core.quiet_logger(), twin).get_nodes(op, mustexist=True)))
+        if r1[0] == "ok" and any(isinstance(nc.node, list) and not (nc.node and isinstance(nc.node[0], NodeCoords)) for nc in r1[1]):
+            seq_ops.append(i)
+    want = _remove(j, gone)
+    r, after = real_delete(j, path, case.get("api", "delete_nodes"))
+    rep = dict(case)
+    cls = "array-as-first-operand" if 0 in seq_ops else "array-as-later-operand" if seq_ops else "no-array-operand"
+    bump("collector:" + cls)
+    bump("collector:impl:" + r[0].split(":")[0])
+    what = "delete %s (%s; operands resolving to a real Array: %s)" % (path, case.get("api"), seq_ops)
+    tail = ":array-as-first-operand" if 0 in seq_ops else ""
+    if r[0] == "timeout":
+        viol.append(("timeout", what + " did not finish", rep))
+    elif r[0].startswith("crash"):
+        viol.append(("collector-delete:%s@%s%s" % (r[0], r[1], tail), what + " raised %s (%s)" % (r[0], r[1]), rep))
+    elif r[0] != "ok":
+        viol.append(("collector-delete:unexpected-error" + tail, what + " raised a YAML Path error though the root is not matched", rep))
+    elif after != want:
+        viol.append(("collector-delete:wrong-nodes-removed" + tail,
+                     what + ": the document is not the original minus the %d matched nodes %s; it is %s" % (
+                         len(gone), [ed.path_of_addr(a) for a in sorted(gone)][:8], json.dumps(codec.json_to_plain(after), default=list)[:300]), rep))
+    else:
+        keys.append(_key(case))
+
+
 # --------------------------------------------------------------------------- documents with YAML merge keys (real code only)
 #
 # Merge keys (`<<: *anchor`) are outside the Lean model; the property is judged directly on the real code, on the
@@ -246,6 +396,20 @@ def gen_merge_doc(rng):
         kv.update(own)
         srcs.append(("m%d" % i, kv))
 
+    # anchored Hashes that nobody merges, named like ordinary keys of the consumers; `defs` holds their only occurrence
+    defs = rng.sample(["n", "z", "t", "k"], rng.randint(1, 2)) if rng.random() < 0.45 else []
+    defs_first = rng.random() < 0.5
+
+    def defs_section():
+        if defs:
+            lines.append("defs:")
+            for n_, name in enumerate(defs):
+                lines.append("  %s: &%s {d%d: %d}" % (name, name, n_, n_))
+            if rng.random() < 0.5:
+                lines.append("  keep: 1")
+    if defs_first:
+        defs_section()
+
     def consumer(ind, first_prefix=None):
         picks = rng.sample(srcs, rng.choice([1, 1, 2, 2, min(3, len(srcs))]))
         merged = {}
@@ -262,6 +426,8 @@ def gen_merge_doc(rng):
                 v = merged[k]                                                 # repeats the merged value
             elif r < 0.58:
                 k, v = rng.choice(picks)[0], "1"                              # a key spelled like an anchor
+            elif defs and r < 0.85:
+                k, v = rng.choice(defs), rng.choice(MKD_VALS)                 # a key spelled like an anchor nobody merges
             else:
                 k, v = rng.choice(MKD_KEYS + ["n", "z"]), rng.choice(MKD_VALS)
             if k not in [x[0] for x in ownlines]:
@@ -290,7 +456,9 @@ def gen_merge_doc(rng):
         lines.append("copy: *%s" % rng.choice(srcs)[0])
     if rng.random() < 0.4:
         lines.append("top: [%s]" % ", ".join(rng.choice(MKD_VALS) for _ in range(rng.randint(1, 3))))
-    return "\n".join(lines) + "\n", srcs, consumers
+    if not defs_first:
+        defs_section()
+    return "\n".join(lines) + "\n", srcs, consumers, defs
 
 
 def _ptext(segs, sep):
@@ -308,8 +476,14 @@ def _ptext(segs, sep):
 def gen_merge_cases(rng, ndocs):
     cases = []
     for _ in range(ndocs):
-        text, srcs, consumers = gen_merge_doc(rng)
+        text, srcs, consumers, defs = gen_merge_doc(rng)
         paths = []
+        for name in defs:
+            # one delete matching the key that holds the only &name Hash AND the consumers' own keys spelled `name`
+            pre = rng.choice(consumers)[0]
+            paths.append(rng.choice(["/*/%s" % name, "*.%s" % name, "(%s)+(/defs/%s)" % (_ptext(pre + [name], "/"), name),
+                                     "(/defs/%s)+(%s)" % (name, _ptext(pre + [name], "/")), "(%s)+(/defs)" % _ptext(pre + [name], "/"),
+                                     "/items/*/%s" % name, "(/items/*/%s)+(defs.%s)" % (name, name)]))
         for _ in range(4):
             pre, refs, own = rng.choice(consumers)
             sep = rng.choice(["/", "."])
@@ -334,7 +508,7 @@ def gen_merge_cases(rng, ndocs):
     return cases
 
 
-def mk_renumber(table):
+def mk_renumber(table, mapping=None):
     """Drop the containers no longer reachable from container 0 and number the rest in first-visit order (merge
     references first, then own entries / items - the order of c03.mk_phys)."""
     new, out = {}, []
@@ -358,6 +532,8 @@ def mk_renumber(table):
             out[n] = dict(c, items=[ref(v) for v in c["items"]])
         return n
     visit(0)
+    if mapping is not None:
+        mapping.update(new)
     return out
 
 
@@ -406,6 +582,8 @@ def merge_case(case, bump, viol, keys):
     want = json.loads(json.dumps(before))
     rm_own, rm_item, rm_merge = set(), set(), set()
     feats = set()
+    spelled = []            # (position in `real`, container, key) of matched own keys spelled like an anchored Hash
+    order = []              # per matched node: ("own"|"item", container, ref, sort key of _delete_nodes)
     eq_own = {}             # container -> own keys whose value compares equal (==) to that key of a removed merged mapping
     for nc in real:
         parent, pref = nc.parent, nc.parentref
@@ -420,6 +598,7 @@ def merge_case(case, bump, viol, keys):
                 bump("merge-doc:skipped:result-does-not-locate-a-node")
                 return
             rm_item.add((ci, pref % len(parent)))
+            order.append(("item", ci, pref % len(parent), pref % len(parent)))
             continue
         own_keys = [k for k, _ in c["own"]]
         is_mref = (isinstance(nc.node, CommentedMap) and id(nc.node) in ids and ["ref", ids[id(nc.node)]] in c["merge"]
@@ -435,6 +614,7 @@ def merge_case(case, bump, viol, keys):
                         eq_own.setdefault(ci, set()).add(json.dumps(codec.key_to_json(k)))
                     else:
                         feats.add("own-key-overrides-merged-key")
+            order.append(("mref", ci, None, 0))
             if len(c["merge"]) > 1:
                 feats.add("several-references")
             lidx = [i for i, m in enumerate(parent.merge) if m[1] is tgt][0]
@@ -453,17 +633,40 @@ def merge_case(case, bump, viol, keys):
             rm_own.add((ci, json.dumps(kj)))
             feats.add("own-key")
             if c["merge"] and isinstance(kj, str) and any(codec.anchor_of(m) == kj for m in amaps):
-                feats.add("own-key-spelled-like-an-anchor")
+                spelled.append((len(order), ci, kj))
+            order.append(("own", ci, json.dumps(kj), 0))
             continue
         bump("merge-doc:skipped:matched-an-inherited-key")
         return
+    # C04-F4 is the class "own key spelled like the anchor of a Hash that is (still) part of the document when the key is
+    # processed".  _delete_nodes works from the highest sort key down and, among equals, in reverse gather order; a Hash
+    # whose only occurrence an earlier step of the same delete removed is no longer part of the document.
+    f4_cis = set()
+    for pos, ci, kj in spelled:
+        earlier = [o for i, o in enumerate(order) if o[0] != "mref" and (o[3] > 0 or i > pos)]
+        if _anchor_reachable(before, kj, set((o[0], o[1], o[2]) for o in earlier)):
+            f4_cis.add(ci)
+            feats.add("own-key-spelled-like-an-anchor")
+        else:
+            feats.add("own-key-spelled-like-an-anchor-removed-earlier-in-this-delete")
+    # C04-F7: one delete matches an own key that overrides a merged key AND that key of the merged Hash itself
+    def merged_cis(ci_, seen_=None):
+        seen_ = set() if seen_ is None else seen_
+        for m in before[ci_]["merge"]:
+            if m[0] == "ref" and m[1] not in seen_:
+                seen_.add(m[1])
+                merged_cis(m[1], seen_)
+        return seen_
+    if any((mi, k_) in rm_own for (ci_, k_) in rm_own for mi in merged_cis(ci_)):
+        feats.add("own-key-and-the-merged-key-it-overrides")
     for ci, c in enumerate(want):
         if c["t"] == "map":
             c["own"] = [[k, v] for k, v in c["own"] if (ci, json.dumps(k)) not in rm_own]
             c["merge"] = [m for m in c["merge"] if (ci, m[1]) not in rm_merge]
         else:
             c["items"] = [v for i, v in enumerate(c["items"]) if (ci, i) not in rm_item]
-    renum = mk_renumber(want)
+    renmap = {}
+    renum = mk_renumber(want, renmap)
     doc = c03.mk_load(text)
     proc = Processor(core.quiet_logger(), doc)
     if api == "gathered":
@@ -487,12 +690,19 @@ def merge_case(case, bump, viol, keys):
             sig = "merge-doc:own-key-spelled-like-an-anchor"
         elif pos_class and r[0] == "crash:IndexError":
             sig = "merge-doc:merge-key-position-used-as-index:crash:IndexError"
+        elif "own-key-and-the-merged-key-it-overrides" in feats and r[0] == "crash:KeyError":
+            sig = "merge-doc:overriding-own-key-and-merged-key-deleted-together:crash:KeyError"
         elif "mapping-is-itself-merged-elsewhere" in feats and r[0] == "crash:KeyError":
             sig = "merge-doc:reference-removed-from-a-merged-mapping:crash:KeyError"
         found.append((sig, "raised %s (%s)" % (r[0], r[1])))
     after = c03.mk_phys(proc.data)
+    if len(after) != len(want) and len(after) == len(renum):
+        # containers were detached as expected: judge per mapping on the renumbered table
+        want = renum
+        f4_cis = set(renmap[c_] for c_ in f4_cis if c_ in renmap)
+        eq_own = dict((renmap[c_], v_) for c_, v_ in eq_own.items() if c_ in renmap)
     if len(after) == len(want):
-        # same containers (a merge-reference delete never detaches one): judge own keys and references per mapping
+        # same containers: judge own keys and references per mapping
         for ci, (w, a) in enumerate(zip(want, after)):
             if w == a:
                 continue
@@ -504,7 +714,7 @@ def merge_case(case, bump, viol, keys):
             lost = [k for k in wk if k not in ak]
             eq = [k for k in lost if k in eq_own.get(ci, ())]
             neq = [k for k in lost if k not in eq_own.get(ci, ())]
-            if "own-key-spelled-like-an-anchor" in feats and (lost or [k for k in ak if k not in wk] or w["merge"] != a["merge"]):
+            if ci in f4_cis and (lost or [k for k in ak if k not in wk] or w["merge"] != a["merge"]):
                 found.append(("merge-doc:own-key-spelled-like-an-anchor", "mapping #%d: expected own keys %s and references %s, found %s and %s" % (
                     ci, wk, w["merge"], ak, a["merge"])))
                 continue
@@ -539,6 +749,25 @@ def merge_case(case, bump, viol, keys):
         if sig not in seen:
             seen.add(sig)
             viol.append((sig, what + ": " + detail + "\n" + text, rep))
+
+
+def _anchor_reachable(table, name, removed):
+    """Is a Hash anchored `name` reachable from the root through own entries / elements once `removed` are gone?"""
+    seen, todo = set(), [0]
+    while todo:
+        ci = todo.pop()
+        if ci in seen:
+            continue
+        seen.add(ci)
+        c = table[ci]
+        if c["t"] == "map":
+            if c["anchor"] == name and ci != 0:
+                return True
+            kids = [v for k, v in c["own"] if ("own", ci, json.dumps(k)) not in removed]
+        else:
+            kids = [v for i, v in enumerate(c["items"]) if ("item", ci, i) not in removed]
+        todo += [v[1] for v in kids if v[0] == "ref"]
+    return False
 
 
 def ids_maps(root):
@@ -587,9 +816,9 @@ def _job(cases):
     pend = []
     for case in cases:
         stats["n"] += 1
-        if case.get("slice") or case.get("merge"):
+        if case.get("slice") or case.get("merge") or case.get("collector"):
             try:
-                (slice_case if case.get("slice") else merge_case)(case, bump, viol, keys)
+                (slice_case if case.get("slice") else merge_case if case.get("merge") else collector_case)(case, bump, viol, keys)
             except codec.OutOfModel:
                 stats["oom"] += 1
             continue
